@@ -411,8 +411,8 @@ func c09Case(c *core.Ctx) *core.Result {
 		var op string
 		var err error
 		var exp pview
-		exact := false       // exp is a full prediction
-		structural := false  // op changes structure (invariants are checked after success)
+		exact := false      // exp is a full prediction
+		structural := false // op changes structure (invariants are checked after success)
 		var call func()
 		switch r.Intn(20) {
 		case 0, 1:
@@ -654,7 +654,9 @@ func c09Case(c *core.Ctx) *core.Result {
 			}
 			j := idx(n)
 			op = "AddNestedTable"
-			call = func() { _, err = t.AddNestedTable(i, j, &document.TableConfig{Rows: r.Range(1, 2), Cols: r.Range(1, 2), Width: 1000}) }
+			call = func() {
+				_, err = t.AddNestedTable(i, j, &document.TableConfig{Rows: r.Range(1, 2), Cols: r.Range(1, 2), Width: 1000})
+			}
 			if i >= 0 && i < R && j >= 0 && j < n {
 				exp = before.clone()
 				exp.Rows[i][j].Any = true
